@@ -48,7 +48,7 @@ def evaluations_of(inp):
     return evs
 
 
-DEFAULT_OPT = ["sympy", True, "asc", "comp"]
+DEFAULT_OPT = ["sympy", True, "asc", "comp", "net"]
 
 
 def _backend(name):
@@ -66,14 +66,20 @@ def observe_all(inp, tolz, tolnz):
     by formula.  Returns one observation per evaluation (per-species vectors in the order of the case)."""
     import numpy as np
     import sympy
-    bk, nep, order, spf = inp.get("opt", DEFAULT_OPT)
+    bk, nep, order, spf, wf = inp.get("opt", DEFAULT_OPT)
     exact = bk == "sympy"
     evs = evaluations_of(inp)
     rev = (lambda v: v[::-1]) if order == "rev" else (lambda v: list(v))
     species = rev(inp["species"])
     nu = [rev(row) for row in inp["nu"]]
     num = ec.srat if exact else (lambda p: float(Fraction(int(p[0]), int(p[1]))))
-    es, names = ec.build_system(species, nu, [ec.srat(k) if exact else num(k) for k in evs[0]["K"]], spform=spf)
+    written = None
+    if wf != "net":
+        wi, wj, wm = inp["written"]          # 1-based reaction, species position in case order, amount
+        n_sp = len(inp["species"])
+        written = {"kind": wf, "i": wi - 1, "j": (n_sp - wj) if order == "rev" else wj - 1, "m": wm}
+    es, names = ec.build_system(species, nu, [ec.srat(k) if exact else num(k) for k in evs[0]["K"]], spform=spf,
+                                written=written)
     ns, ns_exc = None, None
     try:
         ns = ec.numsys_class(inp["ns"])(es, backend=_backend(bk), rref_equil=bool(inp["re"]),
@@ -150,7 +156,7 @@ def disagreements(inp, exp, obs, nth=0, pert=None):
     opt = inp.get("opt", DEFAULT_OPT)
     if list(opt) != DEFAULT_OPT:
         cfg["backend"] = opt[0]
-        cfg["opt"] = "%s/%s/%s/%s" % (opt[0], "params" if opt[1] else "ownK", opt[2], opt[3])
+        cfg["opt"] = "%s/%s/%s/%s/%s" % (opt[0], "params" if opt[1] else "ownK", opt[2], opt[3], opt[4])
     if nth > 0:
         cfg["reused"] = True   # the object had been evaluated before with other parameters
     pert = pert or inp["pert"]
@@ -293,7 +299,11 @@ def gen_trace(pool, rng, max_rxns):
         if any(e is None for e in evs):
             continue
         re_, rp = rng.choice(FLAGS)
-        return dict(rids=rids, species=species, nu=nu, evals=evs, ns=rng.choice(ec.NUMSYS), re=re_, rp=rp, opt=opt)
+        wr = [0, 0, 0]
+        if opt[4] != "net":   # any reaction, any species of the system, amount 1..3 on both sides
+            wr = [rng.randint(1, len(rids)), rng.randint(1, len(species)), rng.randint(1, 3)]
+        return dict(rids=rids, species=species, nu=nu, evals=evs, ns=rng.choice(ec.NUMSYS), re=re_, rp=rp, opt=opt,
+                    written=wr)
     raise core.MachineryFailure("C07 generator: no admissible construction found")
 
 
@@ -310,16 +320,25 @@ def _k_of(nu, ceq):
     return ks
 
 
+def _enc(v):
+    """un-encodable observation (None) -> [0, 0], which is no rational and equals nothing TLC expects"""
+    if v is None:
+        return [0, 0]
+    if isinstance(v, list):
+        return [_enc(t) for t in v]
+    return v
+
+
 OBS_FIELDS = ("raised", "len", "cls", "q", "keys", "totc", "tot0", "qarr", "totd", "scA", "scK", "eqc")
-OPTIONS = [[b, n, o, f] for b in ("sympy", "numpy", "math") for n in (True, False) for o in ("asc", "rev")
-           for f in ("comp", "formula")]
+OPTIONS = [[b, n, o, f, w] for b in ("sympy", "numpy", "math") for n in (True, False) for o in ("asc", "rev")
+           for f in ("comp", "formula") for w in ("net", "net", "self", "other", "inact")]
 
 
 def run_trace(g):
     recs = [dict(K=_k_of(g["nu"], e["ceq"]), c=[_pair(v) for v in e["c"]], c0=[_pair(v) for v in e["c0"]],
                  pert=e["pert"], ceq=[_pair(v) for v in e["ceq"]]) for e in g["evals"]]
     inp = dict(species=g["species"], nu=g["nu"], ns=g["ns"], re=g["re"], rp=g["rp"], opt=g["opt"], hist=recs[:-1],
-               **recs[-1])
+               written=g["written"], **recs[-1])
     allobs = observe_all(inp, 10, 6)
     tr = [{"ev": "sys", "rs": g["rids"]}]
     for n, (e, obs) in enumerate(zip(g["evals"], allobs)):
@@ -330,8 +349,8 @@ def run_trace(g):
         p = dict(e["pert"])
         p["ev"] = "pert"
         tr.append(p)
-        tr.append({"ev": "result", "ns": g["ns"], "re": g["re"], "rp": g["rp"], "opt": g["opt"],
-                   "obs": {k: obs[k] for k in OBS_FIELDS}})
+        tr.append({"ev": "result", "ns": g["ns"], "re": g["re"], "rp": g["rp"], "opt": g["opt"], "wr": g["written"],
+                   "obs": {k: _enc(obs[k]) for k in OBS_FIELDS}})
     obs = dict(allobs[-1])
     obs["unrepresentable"] = any(o["unrepresentable"] for o in allobs)
     obs["all"] = [{k: o[k] for k in ("cls", "len", "max", "raised", "exc")} for o in allobs]
@@ -348,7 +367,7 @@ def _trace_key(inp, obs, clause, nth=0):
         opt = inp.get("opt", DEFAULT_OPT)
         if list(opt) != DEFAULT_OPT:
             key["backend"] = opt[0]
-            key["opt"] = "%s/%s/%s/%s" % (opt[0], "params" if opt[1] else "ownK", opt[2], opt[3])
+            key["opt"] = "%s/%s/%s/%s/%s" % (opt[0], "params" if opt[1] else "ownK", opt[2], opt[3], opt[4])
         if nth > 0:
             key["reused"] = True
         if clause == "raises":
@@ -369,18 +388,21 @@ def run(ctx):
     for sl in slices:
         history = sl.startswith("hist")
         few_kinds = history or sl.startswith("opts") or sl == "sys_q"
+
         acts = [a for a in ACTIONS if not few_kinds or a in ("GenSystem", "GenNoPerturb", "GenBreakQuotient", "Residual")]
         res = ctx.tlc("Equilibria_MC", "Equilibria_MC_%s.cfg" % sl,
-                      require_actions=(acts + (["Again"] if history else [])) if sl in ("single_q", "hist_q") else (),
+                      require_actions=(acts + (["Again"] if history else [])) if sl == "hist_q" else (),
                       require_cases=800, timeout=1500)
         # TLC prints cases in worker order: sort, so that the seed alone determines the sample
         cases = sorted(res.cases, key=lambda c: core.stable_hash(c["in"]))
         if pool_cases is None:
             pool_cases = cases
         kinds = collections.Counter(c["in"]["pert"]["kind"] for c in cases)
+        if sl == "sys_q" and len({c["in"]["opt"][4] for c in cases}) < 4:
+            raise core.MachineryFailure("vacuity: written forms missing in slice %s" % sl)
         if sl.startswith("opts"):
             seen_opts = {tuple(c["in"]["opt"]) for c in cases}
-            if len(seen_opts) < 24:
+            if len(seen_opts) < 28 or len({o[4] for o in seen_opts}) < 4:
                 raise core.MachineryFailure("vacuity: only %d option bundles in slice %s" % (len(seen_opts), sl))
         for k in (("none", "extent") if few_kinds else ("none", "extent", "scale", "shift0")):
             if not kinds[k]:
@@ -468,7 +490,7 @@ def replay(ctx, rec):
         for e in rec["trace"]:
             e = dict(e)
             if e["ev"] == "result":
-                e["obs"] = {f: allobs[k][f] for f in OBS_FIELDS}
+                e["obs"] = {f: _enc(allobs[k][f]) for f in OBS_FIELDS}
                 k += 1
             tr.append(e)
         v, pos, clause = ctx.validate_traces("EquilibriaTrace", "EquilibriaTrace.cfg", [tr])[0]
